@@ -33,3 +33,5 @@ mod c05;
 mod c07;
 #[cfg(all(kani, feature = "c08"))]
 mod c08;
+#[cfg(all(kani, feature = "c16"))]
+mod c16;
